@@ -145,6 +145,11 @@ theorem endsInsteadOfSkipped_iff (rq : Request) (d : Datagram) :
       cases sourceOk rq d <;> cases d.parses <;> cases d.isResponse <;> cases rq.caseRand <;>
         cases d.questions.all (asked rq) <;> cases d.questions.all (askedCase rq) <;>
         by_cases hid : rq.id = d.id <;> simp [hid]
+    | setup =>
+      exfalso; revert h; unfold examineD
+      cases sourceOk rq d <;> cases d.parses <;> cases d.isResponse <;> cases rq.caseRand <;>
+        cases d.questions.all (asked rq) <;> cases d.questions.all (askedCase rq) <;>
+        by_cases hid : rq.id = d.id <;> simp [hid]
     | parse => exact .inl (.inl h)
     | notResponse => exact .inl (.inr h)
     | caseMismatch => exact .inr h
@@ -201,6 +206,7 @@ theorem recvLoop_accept {rq : Request} {n i : Nat} {es : List Event} {j : Nat}
     refine ⟨Nat.le_refl _, by omega, ?_, by intro k hk; omega⟩
     cases e with
     | ioErr => simp [examine] at hacc
+    | setupFail => simp [examine] at hacc
     | dgram d => exact ⟨d, by simp, (examineD_accept_iff rq d).1 hacc⟩
   | case4 n i e es w hf => cases h
   | case5 n i e es w hs ih =>
@@ -267,7 +273,7 @@ theorem recvLoop_consumed (rq : Request) (n i : Nat) (es : List Event) :
   | case1 => right; rfl
   | case2 => left; simp [RecvOutcome.consumed]
   | case3 n i e es h => left; simp only [RecvOutcome.consumed, List.length_cons]; omega
-  | case4 n i e es w h => left; simp only [RecvOutcome.consumed, List.length_cons]; omega
+  | case4 n i e es w h => left; simp only [RecvOutcome.consumed, List.length_cons]; split <;> omega
   | case5 n i e es w h ih =>
     rcases ih with ih | ih
     · left; simp only [List.length_cons]; omega
@@ -300,6 +306,11 @@ theorem udp_accepts_genuine (rq : Request) (pre post : List Event) (d : Datagram
   have h3 : MAX_EXAMINED = pre.length + ((2 - pre.length) + 1) := by simp [MAX_EXAMINED]; omega
   rw [recv, h3, recvLoop_skip_prefix rq pre _ 0 _ hskip, recvLoop]
   simp [examine, (examineD_accept_iff rq d).2 hm]
+
+/-- a transmission whose set-up fails ends in an error without taking anything from a socket -/
+theorem udp_setup_failure_takes_nothing (rq : Request) (es : List Event) :
+    recv rq (.setupFail :: es) = .fail 0 .setup ∧ (recv rq (.setupFail :: es)).consumed = 0 := by
+  constructor <;> simp [recv, recvLoop, MAX_EXAMINED, examine, RecvOutcome.consumed]
 
 /-! ## the whole query (retransmissions + overall timeout) -/
 
@@ -834,8 +845,8 @@ theorem inv_add_active {act : List Active} {cs : List Caller} {r : Req} {id : Id
       exact ⟨a, by simp [ha], har⟩
     · exact ⟨{ id := id, req := r }, by simp, rfl⟩
 
-theorem inv_send {s s' : State} {r : Req} {draws : List Id} {res : SendResult} (h : Inv s)
-    (hs : send s r draws = .ok (s', res)) : Inv s' := by
+theorem inv_send {s s' : State} {r : Req} {draws : List Id} {enc : Bool} {res : SendResult} (h : Inv s)
+    (hs : send s r draws enc = .ok (s', res)) : Inv s' := by
   unfold send at hs
   split at hs; · cases hs
   split at hs; · cases hs; exact h
@@ -848,8 +859,10 @@ theorem inv_send {s s' : State} {r : Req} {draws : List Id} {res : SendResult} (
     · rename_i id hid
       split at hs
       · cases hs; exact inv_add_error_caller h hr
-      · cases hs
-        exact inv_add_active h hr (nextId_spec hid).1
+      · split at hs
+        · cases hs; exact inv_add_error_caller h hr
+        · cases hs
+          exact inv_add_active h hr (nextId_spec hid).1
 
 theorem recvChan_txClosed (ch : Chan) : ch.recv.1.txClosed = ch.txClosed := by
   unfold Chan.recv; split <;> rfl
@@ -874,7 +887,7 @@ theorem inv_cancel (s : State) (r : Req) (h : Inv s) : Inv (cancel s r) := by
 
 theorem inv_step (s : State) (op : Op) (h : Inv s) : Inv (step s op) := by
   cases op with
-  | send r draws =>
+  | send r draws enc =>
     simp only [step]
     split
     · rename_i s' res hs; exact inv_send h hs
@@ -1210,7 +1223,7 @@ theorem closeAll_chan (as : List Active) (cs : List Caller) (hn : (as.map (·.re
 theorem step_closed (s : State) (op : Op) (hs : s.isShutdown = true) (ha : s.active = []) :
     (step s op).isShutdown = true ∧ (step s op).active = [] := by
   cases op with
-  | send r draws => simp [step, send, hs, ha]
+  | send r draws enc => simp [step, send, hs, ha]
   | deliver f => simp [step, hs, ha]
   | poll => simp [step, poll, ha, hs, dropCancelled]
   | recv r =>
@@ -1234,8 +1247,8 @@ theorem after_close_stable (s : State) (hs : s.isShutdown = true) (ha : s.active
 
 /-- **send_fresh_id.** The id a request goes out with was drawn among the first 100 RNG values and
 is not the id of any request in flight. -/
-theorem send_fresh_id {s s' : State} {r : Req} {draws : List Id} {id : Id}
-    (h : send s r draws = .ok (s', .sent id)) :
+theorem send_fresh_id {s s' : State} {r : Req} {draws : List Id} {enc : Bool} {id : Id}
+    (h : send s r draws enc = .ok (s', .sent id)) :
     id ∉ s.activeIds ∧ id ∈ draws.take ID_TRIES ∧
       s'.active = s.active ++ [{ id := id, req := r }] := by
   unfold send at h
@@ -1247,20 +1260,34 @@ theorem send_fresh_id {s s' : State} {r : Req} {draws : List Id} {id : Id}
   · rename_i id' hid
     split at h
     · cases h
-    · cases h
-      exact ⟨(nextId_spec hid).1, (nextId_spec hid).2, rfl⟩
+    · split at h
+      · cases h
+      · cases h
+        exact ⟨(nextId_spec hid).1, (nextId_spec hid).2, rfl⟩
 
 /-- **send_exhausted_errs.** If 100 draws in a row all hit ids in flight, `send_message` returns an
 error stream and nothing is registered (no id is reused, nothing is sent). -/
-theorem send_exhausted_errs (s : State) (r : Req) (draws : List Id) (hs : s.isShutdown = false)
+theorem send_exhausted_errs (s : State) (r : Req) (draws : List Id) (enc : Bool) (hs : s.isShutdown = false)
     (hfresh : (s.caller? r).isSome = false) (hall : ∀ d ∈ draws.take ID_TRIES, d ∈ s.activeIds) :
-    ∃ s', send s r draws = .ok (s', .err) ∧ s'.active = s.active ∧ s'.outQ = s.outQ := by
+    ∃ s', send s r draws enc = .ok (s', .err) ∧ s'.active = s.active ∧ s'.outQ = s.outQ := by
   unfold send
   simp only [hs, hfresh, Bool.false_eq_true, if_false]
   split
   · exact ⟨_, rfl, rfl, rfl⟩
   · rw [nextId_none.2 hall]
     exact ⟨_, rfl, rfl, rfl⟩
+
+/-- **send_unencodable_errs.** A request that does not encode is answered with an error stream and
+leaves the multiplexer as it was: no id taken, nothing written, nothing pending. -/
+theorem send_unencodable_errs (s : State) (r : Req) (draws : List Id) (hs : s.isShutdown = false)
+    (hfresh : (s.caller? r).isSome = false) :
+    ∃ s', send s r draws false = .ok (s', .err) ∧ s'.active = s.active ∧ s'.outQ = s.outQ ∧
+      s'.inbox = s.inbox := by
+  unfold send
+  simp only [hs, hfresh, Bool.false_eq_true, if_false]
+  split
+  · exact ⟨_, rfl, rfl, rfl, rfl⟩
+  · split <;> exact ⟨_, rfl, rfl, rfl, rfl⟩
 
 /-! ## non-vacuity (multiplexer) -/
 
